@@ -58,6 +58,9 @@ func (obj Values) Eval(s *Scope, depth int) Object {
 
 // First value in the multiple values.
 func (obj Values) First() Object {
+	if len(obj) == 0 {
+		return nil
+	}
 	return obj[0]
 }
 
